@@ -675,13 +675,14 @@ class World:
                     return False, f"signed length {fa!r} vs {fb!r}"
                 return abs(fa - fb) <= rel * max(abs(fa), abs(fb)), f"signed length {fa!r} vs {fb!r}"
             power = 2 + step.get("ea", 0) + step.get("eb", 0)
-            if exact:
-                scale = 1e-12 * max(abs(fa), abs(fb), 1e-300)
+            # areas and moments about the origin: the rounding error scales with
+            # extent**(2+a+b) of the data (the value itself may be ~0 by cancellation)
+            ext = max([d] + [abs(float(c)) for n in names for c in kernel.coords_of(self.slots[n].V)])
+            if exact or tol is None:
+                base, rel = 1e-12, 1e-12
             else:
-                base = (tol.area / (d * d)) if tol else 1e-9
-                # moments about the origin: the error scales with the extent of the data
-                ext = max([d] + [abs(float(c)) for n in names for c in kernel.coords_of(self.slots[n].V)])
-                scale = base * (ext ** power) + tol.num_rel * max(abs(fa), abs(fb))
+                base, rel = tol.area / (d * d), tol.num_rel
+            scale = base * (ext ** power) + rel * max(abs(fa), abs(fb))
             return abs(fa - fb) <= scale, f"{op}: {fa!r} vs {fb!r}"
         if ka == "box":
             if exact:
